@@ -70,6 +70,13 @@ func NewReader(r io.ReaderAt, opts ...Option) (*Reader, error) {
 	}
 
 	if cr.Version == 2 {
+		// The CARv2 header is read at the fixed offset PragmaSize: a version header of any other
+		// length is not the CARv2 pragma, and what follows it is not where the header is looked for.
+		if pos, err := or.Seek(0, io.SeekCurrent); err != nil {
+			return nil, err
+		} else if pos != PragmaSize {
+			return nil, fmt.Errorf("invalid CARv2 pragma: %d bytes long, expected %d", pos, PragmaSize)
+		}
 		if err := cr.readV2Header(); err != nil {
 			return nil, err
 		}
